@@ -45,6 +45,27 @@ class Gen:
         if cls == "bad_magic":
             i = rng.randrange(4)
             return good[:i] + bytes([good[i] ^ (1 << rng.randrange(8))]) + good[i + 1:]
+        if cls == "astronomic_number_in_a_field":
+            raw = indep.enc_block(head)
+            end, fields = wiregen.layout("Block", raw)
+            hf = [(off, wd) for (off, wd, kind, path) in fields if kind == "vlq" and path.endswith("BlockSummary.0")]
+            if not hf:
+                return None
+            off, wd = hf[0]
+            n = rng.choice([2 ** 40, 2 ** 64 + 1, 10 ** 4400, 10 ** 5000 + 7])
+            digits = []
+            while True:
+                digits.append(n & 0x7f)
+                n >>= 7
+                if n == 0:
+                    break
+            digits.reverse()
+            enc = bytes([d | 0x80 for d in digits[:-1]] + [digits[-1]])
+            alt = raw[:off] + enc + raw[off + wd:]
+            body = netmsg.body(M.DataMessage(M.DATA_BLOCK, head), self.nid(), 0, ts=5000)
+            if not body.endswith(raw):
+                return None
+            return netmsg.frame(body[:-len(raw)] + alt)
         if cls == "oversize_length":
             return netmsg.MAGIC + struct.pack(">I", rng.choice([32 * 1024 * 1024 + 1, 0xffffffff, 1 << 30])) + b"abc"
         if cls == "zero_length":
@@ -132,7 +153,8 @@ def run(pid, tier, replay=None):
     byte_classes = ["bad_magic", "oversize_length", "zero_length", "truncated_frame", "undecodable_header", "undecodable_payload",
                     "unknown_message_type", "unknown_data_type", "header_only_data", "oversize_inventory", "getdata_transaction_type",
                     "getdata_unknown_hash", "peers_with_unusable_addresses", "repeated_greeting", "empty_inventory", "get_peers",
-                    "duplicate_block", "trailing_garbage_frame", "random_bytes", "bit_flipped_frame", "spliced_frames", "truncated_then_valid"]
+                    "duplicate_block", "trailing_garbage_frame", "random_bytes", "bit_flipped_frame", "spliced_frames", "truncated_then_valid",
+                    "astronomic_number_in_a_field"]
     bulk_cls = "invalid_block_in_bulk_then_a_rejected_block"
     import skepticoin.networking.remote_peer as rp_c
     ibd_skip = rp_c.IBD_VALIDATION_SKIP
